@@ -670,6 +670,13 @@ class AsyncServer:
             # `fut`; the caller may have abandoned (cancelled) the request in between.
             if fut.cancelled():
                 return
+            if isinstance(y, StopIteration):
+                # An `asyncio.Future` refuses to carry `StopIteration` (the request would never
+                # be answered); do what Python does when it escapes from a coroutine.
+                try:
+                    raise RuntimeError('worker raised StopIteration') from y
+                except RuntimeError as e:
+                    y = e
             if isinstance(y, BaseException):
                 fut.set_exception(y)
             else:
